@@ -171,6 +171,8 @@ var c18Rejected = []struct{ name, src string }{
 	{"undefined-in-function-body", "f := func() { return qq }"},
 	{"undefined-in-call-args", "emit(x, zz)"},
 	{"call-then-undefined", "emit(7) + zz"},
+	{"pipe-into-undefined-name", "x | no_such_function"},
+	{"const-with-undefined-initializer", "const x2 = x * zz"},
 	{"assign-call-result-to-undefined-name", "zz = emit(7)"},
 	{"assign-call-result-to-constant", "const k2 = 1\nk2 = emit(7)"},
 	{"assign-failing-index-to-undefined-name", "zz = [1, 2, 3][7]"},
@@ -192,6 +194,14 @@ func HarnessC18RejectedPieceHasNoEffect() {
 	verifrt.Assert(rerr != nil, rj.name+":piece-is-rejected")
 	if rerr == nil {
 		return
+	}
+	// the piece after the rejected one uses plain calls, a pipe and may declare the
+	// name the rejected piece tried to declare
+	_, errp, stagep := s.eval("const x2 = 4\nidf := func(v) { return v }\nq := idf(x2) | idf")
+	verifrt.Assert(errp == nil, rj.name+":later-declarations-and-pipes-unaffected:"+stagep)
+	if errp == nil {
+		qv, qok := s.get("q")
+		verifrt.Assert(qok && qv == 4, rj.name+":later-pipe-value")
 	}
 	res, err3, stage := s.eval("x = x + 1\nx * 2")
 	verifrt.Reach("after-rejected")
